@@ -126,6 +126,32 @@ func (d *driver) census(e *Ev) error {
 	return nil
 }
 
+// sweep releases what the census found left behind (after it has been
+// recorded), so that a leak does not pile up over thousands of scenarios and
+// end in ENOMEM/EMFILE or quadratic /proc parsing.
+func (d *driver) sweep(e *Ev) {
+	if d.base != nil {
+		for _, m := range e.Maps {
+			_, _, _ = syscall.Syscall(syscall.SYS_MUNMAP, uintptr(d.base)+uintptr(m[0]), uintptr(m[1]), 0)
+		}
+	}
+	if e.File == 1 {
+		_ = os.Remove(d.name)
+	}
+	if e.Fds > 0 {
+		key := filepath.Base(d.name)
+		if ents, err := os.ReadDir("/proc/self/fd"); err == nil {
+			for _, en := range ents {
+				if t, err := os.Readlink("/proc/self/fd/" + en.Name()); err == nil && strings.Contains(t, key) {
+					if fd, err := strconv.Atoi(en.Name()); err == nil {
+						_ = syscall.Close(fd)
+					}
+				}
+			}
+		}
+	}
+}
+
 // runs projects view[0:size) to maximal runs of successive tokens.
 func (d *driver) runs() [][3]int {
 	r := [][3]int{}
@@ -285,6 +311,7 @@ func (d *driver) step(g Ev, amt int) (e Ev, err error) {
 		d.dead = true
 		err = d.census(&e)
 		_ = d.b.Destroy() // a second Destroy must be harmless
+		d.sweep(&e)
 		return
 	default:
 		return e, fmt.Errorf("unknown step %q", g.Ev)
